@@ -6,6 +6,8 @@ import CookModel.Lemmas.CoverAll
 import CookModel.Lemmas.CoverInput
 import CookModel.Lemmas.TableFacts
 import CookModel.Lemmas.CoverAudit
+import CookModel.Lemmas.FragInput
+import CookModel.Lemmas.RecipeText
 /-
   C05  No recipe content is silently dropped.
 
@@ -456,5 +458,253 @@ example : (commentMask toyCharSpec "Mix @salt{1} -- c".toList)[16]? = some true 
   constructor <;> decide +kernel
 example : ((pullEvents (α := Rat) toyCharSpec ⟨0⟩ "Mix @salt{1} -- c".toList).1.toList.all
     (fun ev => match ev with | .error _ => false | _ => true)) = true := by decide +kernel
+
+/-! ## fragment level (wave 5): the content is present in what the events CARRY
+
+    Everything above speaks about SPANS: `Text::span()` runs from the first fragment's start to the last
+    fragment's end and therefore also spans skipped comments and the backslash of an escape, and the span of a
+    component is the whole of the consumed bytes.  A `Text` whose span is right but whose middle fragment is
+    missing, or a component whose span is right but whose name lost a word, would satisfy all of it.
+    `Ev.carries cs ev p q` ("the event carries the bytes `[p, q)`"): the bytes lie inside ONE FRAGMENT of a
+    text of the event — step text, name, alias, note, unit of a component, key / value of a metadata entry,
+    section name, front-matter text, or the text a text value is `text_trimmed` of — or inside the span of a
+    non-text datum of a component: its modifiers (which include the `&(…)` reference data) or the number /
+    range of its quantity.  `Carried cs evs p q`: some event of the queue carries them. -/
+
+/-- a lexed token that is not a comment and contains a letter or digit is a `CoreTok`: a content token
+    (`Wordy`) of kind word, int, zero-int, punctuation or escape — none of the one-character markers of the
+    syntax (`AlnumNoMarker`: a letter or digit is none of `: @ # ~ ? + / * & | % = { } ( ) .`) -/
+theorem C05_alnum_tokens_are_core (cs : CharSpec) (hs : AlnumSpec cs) (hs2 : AlnumNoMarker cs) (off : Nat)
+    (s : List Char) (t : Tok) (ht : t ∈ lexFrom cs off s) (hlc : t.kind ≠ .lineComment)
+    (hbc : t.kind ≠ .blockComment) (c : Char) (hc : c ∈ t.text) (ha : cs.alnum c = true) : CoreTok cs t := by
+  obtain ⟨nx, hsp⟩ := wellSpelled_mem (lexFrom_wellSpelled cs off s) ht
+  exact frag_core_of_alnum hs hs2 hsp hlc hbc hc ha
+
+/-- **Components carry what they consume.**  When `ingredient()`, `cookware()` or `timer()`, run from cursor
+    `c` of a block of adjacent tokens, returns an event, every `CoreTok` between the two cursors is carried
+    by THAT event — inside a fragment of its name, alias, note or unit, of the text its text value was trimmed
+    from, or inside the span of its modifiers or of its number — or the parser pushed an `Error` event: the
+    code drops an alias after a second `|`, an empty alias, the modifiers and the alias of a timer and the
+    unit of a cookware, each WITH an error (`multiple-aliases`, `empty-alias`, `modifiers-not-allowed`,
+    `alias-not-allowed`, `cookware-unit`).  Refines `C05_component_covers_consumed` (span = consumed
+    bytes). -/
+theorem C05_component_carries_consumed {α : Type} [Arith α] (ts : List Tok) (hw : WF ts) (e : Ext)
+    (s : BP α) (hg : G ts e s) (p : P α (Option (Ev α)))
+    (hp : p = ingredientP ∨ p = cookwareP ∨ p = timerP) (ev : Ev α) (hr : (p s).1 = some ev) :
+    ∀ (i : Nat) (t : Tok), s.cur ≤ i → i < (p s).2.cur → ts[i]? = some t → CoreTok s.cs t →
+      HasErrEv (p s).2.evs ∨ ev.carries s.cs (tokBodyStart t) t.stop :=
+  frag_component_carries hw hg p hp ev hr
+
+/-- **Every block shape, fragment level.**  For EVERY block of adjacent tokens, every extension set, either
+    metadata style and every previous queue: after `parse_block` + `finish` the queue contains an `Error`
+    event, or every `CoreTok` of the block is carried by an event (`TokCarried`: its body — for an escape
+    `\x` the `x` — lies inside one fragment of a text of an event, or inside the span of a component's
+    modifiers / number).  Refines `C05_block_events_cover`. -/
+theorem C05_block_events_carry {α : Type} [Arith α] (cs : CharSpec) (ext : Ext) (oldStyle : Bool)
+    (b : List Tok) (evs : Array (Ev α)) (hw : WF b) :
+    HasErrEv (runBlock cs ext oldStyle b evs none).1 ∨
+    ∀ t ∈ b, CoreTok cs t → TokCarried cs (runBlock cs ext oldStyle b evs none).1 t :=
+  frag_block_carries cs ext oldStyle b evs hw
+
+/-- **C05 at fragment level, for every input.**  For every input, extension set, number type and every
+    character table satisfying `AlnumSpec`, `AlnumNoMarker` and `CommentSpec` (all three PROVED for the table
+    generated from the real lexer, see the `_real` versions): each letter or digit of the input — character
+    number `a.length`, bytes `utf8Len a .. utf8Len a + c.utf8Size`, when `input = a ++ c :: z` —
+    * is flagged as comment by the independent scanner, or
+    * the event stream contains an `Error` event, or
+    * is CARRIED by an event of `PullParser` run to completion: it lies inside one fragment of the text of a
+      `Text` event, of the name / alias / note / unit of a component, of the text a component's text value
+      was trimmed from, of the key or the value of a metadata entry, of a section name or of the front
+      matter; or inside the span of a component's modifiers or of the number / range of its quantity.
+    Unlike the span-level `C05_conservation_independent_scanner` the error alternative is needed: a few
+    constructs are dropped from the event WITH an error (see `C05_component_carries_consumed`); with spans
+    they were still inside the component's span.  By position, hence with multiplicity. -/
+theorem C05_conservation_fragments {α : Type} [Arith α] (cs : CharSpec) (hs : AlnumSpec cs)
+    (hs2 : AlnumNoMarker cs) (hcs : CommentSpec cs) (ext : Ext) (input a z : List Char) (c : Char)
+    (hin : input = a ++ c :: z) (ha : cs.alnum c = true) :
+    (commentMask cs input)[a.length]? = some true ∨ HasErrEv (pullEvents (α := α) cs ext input).1 ∨
+    Carried cs (pullEvents (α := α) cs ext input).1 (utf8Len a) (utf8Len a + c.utf8Size) :=
+  frag_input_conservation cs hs hs2 hcs ext input a z c hin ha
+
+/-- **The property as worded, at fragment level**: WHENEVER the event stream of an input contains no `Error`
+    event, every letter or digit of the input that the comment scanner does not flag is carried by an emitted
+    event — its content is present in a fragment of a text the event carries, or in the span of its modifiers
+    or number (`Carried`).  Here the premise IS used. -/
+theorem C05_fragments_as_worded {α : Type} [Arith α] (cs : CharSpec) (hs : AlnumSpec cs)
+    (hs2 : AlnumNoMarker cs) (hcs : CommentSpec cs) (ext : Ext) (input a z : List Char) (c : Char)
+    (hne : ErrorFree (pullEvents (α := α) cs ext input).1)
+    (hin : input = a ++ c :: z) (ha : cs.alnum c = true)
+    (hnc : (commentMask cs input)[a.length]? ≠ some true) :
+    Carried cs (pullEvents (α := α) cs ext input).1 (utf8Len a) (utf8Len a + c.utf8Size) := by
+  rcases C05_conservation_fragments (α := α) cs hs hs2 hcs ext input a z c hin ha with h | h | h
+  · exact absurd h hnc
+  · exact absurd h (frag_errorFree_not_hasErr hne)
+  · exact h
+
+/-- only events of the seven listed kinds carry anything (never a diagnostic, a block marker or a nameless
+    section) -/
+theorem C05_only_content_events_carry {α : Type} [Arith α] (cs : CharSpec) (ev : Ev α) (p q : Nat)
+    (h : ev.carries cs p q) : ev.isContentKind = true :=
+  frag_carries_kind h
+
+/-- the two new side conditions hold of the table generated from the real lexer (decided on every range of
+    the generated list): a letter or digit is none of the one-character tokens; lexer white space and word
+    characters contain none of backslash, `-`, `[` -/
+theorem C05_alnumNoMarker_real : AlnumNoMarker realCharSpec := realCharSpec_alnumNoMarker
+theorem C05_commentSpec_real : CommentSpec realCharSpec := realCharSpec_commentSpec
+
+/-- `C05_conservation_independent_scanner` at the character table generated from the real lexer: all side
+    conditions proved, none assumed -/
+theorem C05_conservation_independent_scanner_real {α : Type} [Arith α] (ext : Ext) (input a z : List Char)
+    (c : Char) (hin : input = a ++ c :: z) (ha : realCharSpec.alnum c = true) :
+    (commentMask realCharSpec input)[a.length]? = some true ∨
+    CoveredByContent (pullEvents (α := α) realCharSpec ext input).1 (utf8Len a) (utf8Len a + c.utf8Size) :=
+  C05_conservation_independent_scanner (cs := realCharSpec) C05_alnumSpec_real C05_commentSpec_real
+    ext input a z c hin ha
+
+/-- `C05_conservation_fragments` at the character table generated from the real lexer -/
+theorem C05_conservation_fragments_real {α : Type} [Arith α] (ext : Ext) (input a z : List Char) (c : Char)
+    (hin : input = a ++ c :: z) (ha : realCharSpec.alnum c = true) :
+    (commentMask realCharSpec input)[a.length]? = some true ∨
+    HasErrEv (pullEvents (α := α) realCharSpec ext input).1 ∨
+    Carried realCharSpec (pullEvents (α := α) realCharSpec ext input).1 (utf8Len a) (utf8Len a + c.utf8Size) :=
+  C05_conservation_fragments (cs := realCharSpec) C05_alnumSpec_real C05_alnumNoMarker_real
+    C05_commentSpec_real ext input a z c hin ha
+
+/-- `C05_fragments_as_worded` at the character table generated from the real lexer -/
+theorem C05_fragments_as_worded_real {α : Type} [Arith α] (ext : Ext) (input a z : List Char) (c : Char)
+    (hne : ErrorFree (pullEvents (α := α) realCharSpec ext input).1)
+    (hin : input = a ++ c :: z) (ha : realCharSpec.alnum c = true)
+    (hnc : (commentMask realCharSpec input)[a.length]? ≠ some true) :
+    Carried realCharSpec (pullEvents (α := α) realCharSpec ext input).1 (utf8Len a) (utf8Len a + c.utf8Size) :=
+  C05_fragments_as_worded (cs := realCharSpec) C05_alnumSpec_real C05_alnumNoMarker_real
+    C05_commentSpec_real ext input a z c hne hin ha hnc
+
+/-! non-vacuity.  The new hypothesis on the tables is satisfiable; word, number and escape tokens are
+    `CoreTok`, markers are not. -/
+example : AlnumNoMarker toyCharSpec := toyCharSpec_alnumNoMarker
+example : CoreTok toyCharSpec ⟨.word, "salt".toList, 5⟩ :=
+  ⟨⟨⟨'s', by decide, by decide⟩, by decide, by decide, by decide, by decide, by decide⟩, Or.inl rfl⟩
+example : CoreTok toyCharSpec ⟨.escaped, ['\\', '@'], 1⟩ :=
+  ⟨⟨⟨'@', by decide, by decide⟩, by decide, by decide, by decide, by decide, by decide⟩,
+    Or.inr (Or.inr (Or.inr (Or.inr rfl)))⟩
+example : ¬ CoreTok toyCharSpec ⟨.or, ['|'], 3⟩ := fun h => by
+  rcases h.2 with h | h | h | h | h <;> cases h
+
+/-! an ESCAPE: `a\@b` is one text event with the span 0..4 and the two fragments 0..1 (`a`) and 2..4
+    (`@b`): the backslash (byte 1) is inside the span but in no fragment; the `b` (byte 3) is carried. -/
+example : (pullEvents (α := Rat) toyCharSpec ⟨0⟩ "a\\@b".toList).1.toList.map Ev.fragLayout =
+    [[], [[(0, 1), (2, 4)]], []] := by decide +kernel
+example : Carried toyCharSpec (pullEvents (α := Rat) toyCharSpec ⟨0⟩ "a\\@b".toList).1 3 4 := by
+  have h : (pullEvents (α := Rat) toyCharSpec ⟨0⟩ "a\\@b".toList).1.toList.any (fun ev => match ev with
+      | .text t => t.frags.any (fun f => decide (f.offset ≤ 3) && decide (4 ≤ f.stop))
+      | _ => false) = true := by decide +kernel
+  obtain ⟨ev, hev, hk⟩ := List.any_eq_true.1 h
+  refine ⟨ev, hev, ?_⟩
+  cases ev with
+  | text t =>
+    obtain ⟨f, hf, hb⟩ := List.any_eq_true.1 hk
+    simp only [Bool.and_eq_true, decide_eq_true_eq] at hb
+    exact ⟨f, hf, hb.1, hb.2⟩
+  | _ => simp at hk
+
+/-! a COMMENT INSIDE A NAME that runs over TWO LINES, a unit, a note:
+    `@a [-x-] b⏎c{2%g}(n) -- k` (no extension).  The ingredient spans 0..20; its name has the fragments
+    1..3 (`a `), 8..10 (` b`), 10..11 (the soft line break) and 11..12 (`c`) — the comment `[-x-]`
+    (bytes 3..8) lies inside the name's span 1..12 but in no fragment; the note is 18..19, the unit 15..16;
+    the `2` (byte 13) is inside the span of the number. -/
+example : (pullEvents (α := Rat) toyCharSpec ⟨0⟩ "@a [-x-] b\nc{2%g}(n) -- k".toList).1.toList.map Ev.fragLayout =
+    [[], [[(1, 3), (8, 10), (10, 11), (11, 12)], [(18, 19)], [(15, 16)]], [[(20, 21)]], []] := by
+  decide +kernel
+example : (pullEvents (α := Rat) toyCharSpec ⟨0⟩ "@a [-x-] b\nc{2%g}(n) -- k".toList).1.toList.map
+    (fun ev => match ev with
+      | .ingredient i => i.val.quantity.map (fun q => (q.val.value.value.span.start, q.val.value.value.span.stop))
+      | _ => none) = [none, some (13, 14), none, none] := by decide +kernel
+
+/-! a metadata line with a comment in the key and an escape in the value: `>> k [-c-] e: v\:w` — key
+    fragments 2..5 and 10..12, value fragments 13..15 and 16..18 -/
+example : (pullEvents (α := Rat) toyCharSpec ⟨0⟩ ">> k [-c-] e: v\\:w".toList).1.toList.map Ev.fragLayout =
+    [[[(2, 5), (10, 12)], [(13, 15), (16, 18)]]] := by decide +kernel
+
+/-! what the error alternative is for: with only the alias extension switched on, the second
+    alias of `@a|b|c{}` is dropped with the error `multiple-aliases`: the stream is not error-free -/
+example : ¬ ErrorFree (pullEvents (α := Rat) toyCharSpec ⟨Gen.EXT_COMPONENT_ALIAS⟩ "@a|b|c{}".toList).1 := by
+  intro h
+  have : (pullEvents (α := Rat) toyCharSpec ⟨Gen.EXT_COMPONENT_ALIAS⟩ "@a|b|c{}".toList).1.toList.any
+      (fun ev => match ev with | .error _ => true | _ => false) = true := by decide +kernel
+  obtain ⟨ev, hev, hk⟩ := List.any_eq_true.1 this
+  cases ev <;> simp at hk
+  exact h _ hev _ rfl
+
+/-! ## through the analysis (wave 5, partial): what the events carry reaches the RECIPE
+
+    `parseRecipe` = `PullParser` + `RecipeCollector::parse_events`.  When the report has no parse error the
+    collector returns a recipe (`output = some c`).  Proved here for `Text` events (step text and `>` text
+    blocks): the text of the event is a `Text` item of a step of the recipe, or part of the text of a text
+    block (`ContentHas`) — for every input and every mode, by a fold invariant over `parse_events`.
+    NOT proved (see notes/audit-C05.md): components (name / alias / note / unit / value → the ingredient,
+    cookware and timer tables; the name may be split by `parse_reference`), section names, `>>` metadata
+    (a later entry with the same key REPLACES the value in the map; `[mode]`/`[duplicate]` entries are
+    interpreted, not stored), front matter (YAML, external), and the INLINE_QUANTITIES extension (a step
+    text is cut at the inline quantities). -/
+
+/-- **The text of every `Text` event reaches the recipe.**  Let `parse` return a recipe `c` (no parse error)
+    and let the event stream be `pre ++ [Text t] ++ post`.  If the INLINE_QUANTITIES extension is off, the
+    define mode at the moment the event is analysed (`collectorAfter … pre`) is not `components`, and the
+    text is not empty, then some section of `c` has a content item that holds `t.text` (`Text::text()`:
+    fragments joined, a soft line break as one space): a step with the item `Text(t.text)`, or a text block
+    whose text contains `t.text` as a contiguous piece (text blocks and define mode `text` concatenate).
+    Partial: only `Text` events; INLINE_QUANTITIES excluded. -/
+theorem C05_recipe_keeps_text_partial {α : Type} [Arith α] (env : Env) (input : Str)
+    (hiq : env.ext.has Gen.EXT_INLINE_QUANTITIES = false) (c : Col α)
+    (hout : (parseRecipe (α := α) env input).output = some c) (pre post : List (Ev α)) (t : Text)
+    (hsplit : (pullEvents (α := α) env.cs env.ext input).1.toList = pre ++ Ev.text t :: post)
+    (hm : (collectorAfter env input pre ({} : Col α)).defineMode ≠ .components) (hne : t.text ≠ []) :
+    ∃ sec ∈ c.sections, ∃ ct ∈ sec.content, ContentHas t.text ct :=
+  rt_parseRecipe_text env input hiq c hout pre post t hsplit hm hne
+
+/-- … and in define mode `components` (where steps are not stored, only their components) a step text that
+    has a letter or digit is dropped WITH the warning `text-in-components-mode` labelled with the span of the
+    text: not silently. -/
+theorem C05_components_mode_text_warns {α : Type} [Arith α] (env : Env) (t : Text) (items : List Item)
+    (s : Col α) (hb : s.block = some (.step items)) (hm : s.defineMode = .components)
+    (ha : t.text.any env.cs.alnum = true) :
+    (inStepText env t s).2.diags = s.diags.push ⟨.warning, .analysis, "text-in-components-mode", [t.span]⟩ :=
+  rt_components_mode_warns env t items s hb hm ha
+
+/-- **Letters and digits of step text and text blocks appear in the recipe (partial).**  Let `parse` return a
+    recipe `c`.  A character `ch` of the input (`input = a ++ ch :: z`) whose bytes lie inside a fragment `f`
+    — not a soft line break — of the text of a `Text` event of the stream (what `C05_conservation_fragments`
+    provides for step text; the fragment is the source slice at its offset, C04) occurs in a `Text` item of a
+    step of `c` or in a text block of `c` (`RecipeHasChar`), under the conditions of
+    `C05_recipe_keeps_text_partial`.  Partial in the same way. -/
+theorem C05_recipe_keeps_content_partial {α : Type} [Arith α] (env : Env) (input a z : List Char) (ch : Char)
+    (hin : input = a ++ ch :: z) (hiq : env.ext.has Gen.EXT_INLINE_QUANTITIES = false) (c : Col α)
+    (hout : (parseRecipe (α := α) env input).output = some c) (pre post : List (Ev α)) (t : Text)
+    (hsplit : (pullEvents (α := α) env.cs env.ext input).1.toList = pre ++ Ev.text t :: post)
+    (hm : (collectorAfter env input pre ({} : Col α)).defineMode ≠ .components)
+    (f : Frag) (hf : f ∈ t.frags) (hsoft : f.soft = false) (h1 : f.offset ≤ utf8Len a)
+    (h2 : utf8Len a + ch.utf8Size ≤ f.stop) : RecipeHasChar c ch := by
+  have hmem : Ev.text t ∈ (pullEvents (α := α) env.cs env.ext input).1.toList := by rw [hsplit]; simp
+  have hs := rt_pullEvents_text_slices (α := α) env.cs env.ext input t hmem f hf
+  have hc := rt_char_in_text hf hsoft (rt_char_in_frag hin hs h1 h2)
+  have hne : t.text ≠ [] := List.ne_nil_of_mem hc
+  exact rt_hasChar_of_secsHave (rt_parseRecipe_text env input hiq c hout pre post t hsplit hm hne) hc
+
+/-! non-vacuity: `Mix @salt{1} well⏎⏎> note` with the toy environment (no extension).  The second event is the
+    `Text` "Mix "; the define mode after the first event is `all`; the recipe has one section with the step
+    `Mix ` / ingredient 0 / ` well` and the text block `note`. -/
+example : rtToyEnv.ext.has Gen.EXT_INLINE_QUANTITIES = false := by decide
+example : (match (pullEvents (α := Rat) rtToyEnv.cs rtToyEnv.ext "Mix @salt{1} well\n\n> note".toList).1.toList[1]? with
+    | some (Ev.text t) => t.text == "Mix ".toList
+    | _ => false) = true := by decide +kernel
+example : (collectorAfter rtToyEnv "Mix @salt{1} well\n\n> note".toList
+    ((pullEvents (α := Rat) rtToyEnv.cs rtToyEnv.ext "Mix @salt{1} well\n\n> note".toList).1.toList.take 1)
+    ({} : Col Rat)).defineMode = .all := by decide +kernel
+example : ((parseRecipe (α := Rat) rtToyEnv "Mix @salt{1} well\n\n> note".toList).output.map (·.sections)) =
+    some [⟨none, [.step ⟨[.text "Mix ".toList, .ingredient 0, .text " well".toList], 1⟩,
+      .text "note".toList]⟩] := by decide +kernel
+example : ContentHas "Mix ".toList (.step ⟨[.text "Mix ".toList, .ingredient 0, .text " well".toList], 1⟩) := by
+  simp [ContentHas]
 
 end Cook
